@@ -43,6 +43,10 @@ class NoValue:
     """Override for `copy.copy()` that does not copy this sentinel object."""
     return self
 
+  def __reduce__(self):
+    """Pickles this sentinel by reference, so that it stays the same object."""
+    return 'NO_VALUE'
+
 
 NO_VALUE = NoValue()
 
